@@ -3,7 +3,8 @@
    agreement part (C14). *)
 EXTENDS OpenAPIOps, Json
 
-SetSeq(S) == LET RECURSIVE go(_) go(T) == IF T = {} THEN <<>> ELSE LET x == CHOOSE y \in T : TRUE IN <<x>> \o go(T \ {x}) IN go(S)
+LOCAL SX == INSTANCE SequencesExt
+SetSeq(S) == SX!SetToSeq(S)
 OpJ(o) == [method |-> o.method, path |-> o.path, params |-> SetSeq(o.params), hasBody |-> o.hasBody, statuses |-> SetSeq(o.statuses),
            security |-> SetSeq({[schemes |-> SetSeq(r.schemes), scopes |-> SetSeq(r.scopes)] : r \in o.security})]
 OpsJ(S) == SetSeq({OpJ(o) : o \in S})
